@@ -26,9 +26,9 @@ ASSUMPTIONS = [
 ]
 TRUSTED = ["fork/waitpid outcome classification in harness/scen/peerfail.cpp", "system OpenSSL 3 for the TLS half",
            "parsing of transcript lines into typed observations (Drive/C15.lean toObs / evObs; the predicate itself is "
-           "Spec/C15.lean and proved to accept every trace of the plain-socket model: spec_holds_on_model)",
+           "Spec/C15.lean and proved to accept every trace of the plain-socket model: spec_holds_on_model_partial)",
            "TLS half of the predicate: the clauses about delivered data / reporting are statements about OpenSSL (the engine "
-           "is replayed, not modelled), so spec_holds_on_model covers the plain socket only"]
+           "is replayed, not modelled), so spec_holds_on_model_partial covers the plain socket only"]
 ALL_TAGS = ["send.unlimited", "send.zero", "send.limited", "recv.unlimited", "recv.zero", "recv.limited",
             "task.readable", "task.writable", "task.huperr", "enq"]
 EXHAUSTIVE = {"thorough": False, "quick": False}
@@ -150,7 +150,7 @@ LEVEL_TEXT = ("Machine-checked theorems about the send/receive loops and the asy
               "levels against a peer that fails at swept byte offsets and handshake stages, each in a forked child with SIGPIPE at default "
               "disposition; kernel (and OpenSSL) answers are replayed into the model, Spec.C15 is evaluated on the observations. "
               "The predicate evaluated at run time is Spec/C15.lean (typed observations, total functions specStep / specRun / specFinal; the "
-              "driver only parses lines and calls them) and spec_holds_on_model proves that it accepts EVERY trace of the plain-socket model: "
+              "driver only parses lines and calls them) and spec_holds_on_model_partial proves that it accepts EVERY trace of the plain-socket model: "
               "for every API level, buffer size, payload and every history of any length (peer sends in any segmentation, Send / Receive with "
               "any timeout and any scripted kernel answers, async Send and driver steps with any poll result, close / half close / reset at any "
               "point with or without loss of unread data, destruction) that satisfies the decidable environment assumptions histOk (kernel "
